@@ -44,6 +44,20 @@ def _rng_at(self, k):
 SymRange._at = _rng_at
 
 
+def _rng_tolist(self):
+    from .heap import SymSet, SymList, fresh_set
+
+    st = cur()
+    s_ = fresh_set(st, "range")
+    x = z3.Int("x!rng")
+    st.assume(z3.ForAll([x], s_.mem(x) == z3.And(x >= z3num(self.lo), x < z3num(self.hi))))
+    return SymList(s_, True, None)
+
+
+SymRange._tolist = _rng_tolist
+SymRange._toset = lambda self: _rng_tolist(self).s
+
+
 class SymSeq:
     """sequence of symbolic length whose k-th element is given by a closure"""
 
